@@ -194,7 +194,7 @@ fn case_bitpack(ctx: &mut Ctx, seed: u64, case: &Value) {
 // B. u64 codecs
 // ------------------------------------------------------------------------------------------
 pub(crate) fn gen_u64s(rng: &mut Rng, n: usize) -> (Vec<u64>, &'static str) {
-    let kind = rng.below(12);
+    let kind = rng.below(18);
     let base = match rng.below(5) { 0 => 0u64, 1 => u64::MAX - 5_000_000_000, 2 => 1u64 << 63, 3 => (1u64 << 63) - 3_000_000, _ => rng.next_u64() >> rng.below(64) };
     let name;
     let v: Vec<u64> = match kind {
@@ -209,7 +209,27 @@ pub(crate) fn gen_u64s(rng: &mut Rng, n: usize) -> (Vec<u64>, &'static str) {
         8 => { name = "two-values"; let a = rng.next_u64(); let b = rng.next_u64(); (0..n).map(|_| if rng.chance(1, 2) { a } else { b }).collect() }
         9 => { name = "piecewise-linear"; let mut cur = base / 4; let mut step = rng.below(1000); (0..n).map(|i| { if i % 512 == 0 { step = rng.below(100_000); } cur = cur.wrapping_add(step); cur }).collect() }
         10 => { name = "wrap-around-linear"; let step = 1 + rng.below(1 << 30); (0..n).map(|i| (u64::MAX - 1000).wrapping_add(step.wrapping_mul(i as u64))).collect() }
-        _ => { name = "sorted-random"; let mut v: Vec<u64> = (0..n).map(|_| rng.next_u64() >> 8).collect(); v.sort(); v }
+        11 => { name = "sorted-random"; let mut v: Vec<u64> = (0..n).map(|_| rng.next_u64() >> 8).collect(); v.sort(); v }
+        12 | 13 | 14 => {
+            // one outlier (first / last / middle / a chosen boundary row) over small trend-less, constant or
+            // slowly moving values; the outlier is far away (>= 2^31, up to >= 2^63), above or below
+            let small = 1 + p2(rng, 12);
+            let flavour = rng.below(4);
+            let lowbase = if rng.chance(1, 2) { 0 } else { 1u64 << (32 + rng.below(31)) };
+            let mut v: Vec<u64> = (0..n).map(|i| match flavour { 0 => lowbase + rng.below(small), 1 => lowbase, 2 => lowbase + i as u64, _ => lowbase + (n - i) as u64 }).collect();
+            let far: u64 = *rng.pick(&[1u64 << 31, (1 << 31) + 1, 1 << 32, 1 << 40, 1 << 56, 1 << 57, 1 << 62, 1 << 63, u64::MAX]);
+            let outlier = if rng.chance(3, 4) || lowbase < far { lowbase.saturating_add(far) } else { lowbase - far };
+            if n > 0 {
+                let pos = match kind { 12 => 0, 13 => n - 1, _ => { let r = rng.usize_below(n); *rng.pick(&[n / 2, 1 % n, 510 % n, 511 % n, 512 % n, 513 % n, r]) } };
+                v[pos] = outlier;
+                if rng.chance(1, 4) { let q = rng.usize_below(n); v[q] = outlier.wrapping_sub(rng.below(3)); }
+            }
+            name = match kind { 12 => "outlier-first", 13 => "outlier-last", _ => "outlier-middle" };
+            v
+        }
+        15 => { name = "huge-range-decreasing"; let top = u64::MAX - rng.below(1000); let step = (1u64 << (20 + rng.below(40))) | 1; (0..n).map(|i| top.wrapping_sub(step.wrapping_mul(i as u64))).collect() }
+        16 => { name = "two-clusters-far-apart"; let a = rng.below(1000); let b = (1u64 << (31 + rng.below(33))).wrapping_add(rng.below(1000)); (0..n).map(|i| if (i / (1 + n / 7)) % 2 == 0 { a + rng.below(50) } else { b.wrapping_sub(rng.below(50)) }).collect() }
+        _ => { name = "slope-bailout-step"; let jump = (1u64 << 31) + p2(rng, 30); let k = if n > 0 { rng.usize_below(n) } else { 0 }; (0..n).map(|i| if i < k { 5 + rng.below(3) } else { 5 + jump + rng.below(3) }).collect() }
     };
     (v, name)
 }
@@ -231,16 +251,36 @@ pub(crate) fn model_decode(ctx: &mut Ctx, bytes: &[u8], idxs: &[usize]) -> Optio
 
 fn case_codec(ctx: &mut Ctx, seed: u64, case: &Value) {
     let mut rng = Rng(seed);
-    let n = pick_len(&mut rng, true);
-    let (vals, dist) = gen_u64s(&mut rng, n);
-    let codecs: Vec<CodecType> = match rng.below(6) {
-        0 => vec![CodecType::Bitpacked],
-        1 => vec![CodecType::Linear],
-        2 => vec![CodecType::BlockwiseLinear],
-        3 => vec![CodecType::Bitpacked, CodecType::Linear],
-        4 => vec![CodecType::Bitpacked, CodecType::BlockwiseLinear],
-        _ => vec![CodecType::Bitpacked, CodecType::Linear, CodecType::BlockwiseLinear],
+    // lengths on both sides of the linear codec's 512-value threshold and of the 512-row blocks
+    let n = match rng.below(6) {
+        0 => *rng.pick(&[511usize, 512, 513, 514, 600, 1023, 1024, 1025, 1536]),
+        1 => 512 + rng.usize_below(1500),
+        _ => pick_len(&mut rng, true),
     };
+    let (vals, dist) = gen_u64s(&mut rng, n);
+    // every codec type explicitly (not only what the automatic selection would pick), then the lists
+    // the writers use, then all of them
+    let lists: Vec<Vec<CodecType>> = vec![
+        vec![CodecType::Bitpacked],
+        vec![CodecType::Linear],
+        vec![CodecType::BlockwiseLinear],
+        vec![CodecType::Bitpacked, CodecType::Linear],
+        vec![CodecType::Bitpacked, CodecType::BlockwiseLinear],
+        tantivy_columnar::column_values::ALL_U64_CODEC_TYPES.to_vec(),
+    ];
+    // big columns: the three single codecs + all; small ones: everything
+    for (k, codecs) in lists.iter().enumerate() {
+        if n > 20_000 && (k == 3 || k == 4) { continue; }
+        let sub = json!({"kind": "codec", "case_seed": seed, "codecs": format!("{:?}", codecs)});
+        let _ = case;
+        codec_one(ctx, &mut rng, &vals, dist, codecs, &sub, k == 5);
+    }
+}
+
+fn codec_one(ctx: &mut Ctx, rng: &mut Rng, vals: &[u64], dist: &'static str, codecs: &[CodecType], case: &Value, last: bool) {
+    let n = vals.len();
+    let codecs: Vec<CodecType> = codecs.to_vec();
+    let mut rng = rng.fork();
     let mut out: Vec<u8> = vec![];
     let res = serialize_u64_based_column_values::<u64>(&&vals[..], &codecs, &mut out);
     let canon = format!("codec|{dist}|{n}|{:?}|{}", codecs, crate::report::fnv(&nat_list(&vals).into_bytes()));
@@ -398,8 +438,8 @@ fn case_codec(ctx: &mut Ctx, seed: u64, case: &Value) {
         }
     }
     // typed views over the same machinery: i64 / f64 / bool through their monotone mappings
-    if n > 0 && n <= 3000 {
-        typed_codec_checks(ctx, &mut rng, &vals, &codecs, case);
+    if last && n > 0 && n <= 3000 {
+        typed_codec_checks(ctx, &mut rng, vals, &codecs, case);
     }
     if ctx.report.samples.len() < 2 {
         ctx.report.sample(json!({"section": "codec", "distribution": dist, "rows": n, "codecs": format!("{:?}", codecs), "chosen": chosen, "min": mn, "max": mx, "first_values": vals.iter().take(5).collect::<Vec<_>>()}));
@@ -788,12 +828,12 @@ pub fn run(ctx: &mut Ctx) {
     check_constants(ctx);
     known_range_below_min(ctx);
     let plan: [(&str, u64, u64); 6] = [
-        ("bitpack", 500, 12_000),
-        ("codec", 700, 24_000),
-        ("optidx", 60, 1_500),
-        ("columnar", 260, 9_000),
-        ("merge", 220, 8_000),
-        ("tantivy", 14, 300),
+        ("bitpack", 500, 8_000),
+        ("codec", 230, 4_000),
+        ("optidx", 60, 900),
+        ("columnar", 260, 5_000),
+        ("merge", 220, 4_500),
+        ("tantivy", 14, 200),
     ];
     for (kind, q, t) in plan {
         let n = ctx.budget(q, t);
